@@ -1127,6 +1127,9 @@ func (p *Printer) stmt(s *Stmt) {
 		}
 	}
 	sep := s.Semicolon.IsValid() && s.Semicolon.Line() > p.line && !p.singleLine
+	// Nested statements, "{" and ";;" set wroteSemi too;
+	// from here on it only describes this statement.
+	p.wroteSemi = false
 	if sep || s.Background || s.Coprocess || s.Disown {
 		if sep {
 			p.bslashNewl()
